@@ -4,6 +4,7 @@
 package rules
 
 import (
+	"reflect"
 	"fmt"
 	"go/token"
 	"sort"
@@ -89,7 +90,7 @@ func (c *Ctx) fn(pkg, name string) *ssa.Function {
 func (c *Ctx) pos(p token.Pos) string { return c.P.Pos(p) }
 
 func (c *Ctx) ipos(in ssa.Instruction) string {
-	if in == nil {
+	if in == nil || (reflect.ValueOf(in).Kind() == reflect.Ptr && reflect.ValueOf(in).IsNil()) {
 		return "-"
 	}
 	if in.Pos().IsValid() {
